@@ -48,6 +48,10 @@ type Plan struct {
 	Lockstep bool `json:"lockstep,omitempty"`
 	// CtorCancelAtMs (MapStream): the context given to MapStream itself is cancelled that long after the start
 	CtorCancelAtMs int `json:"ctor_cancel_at_ms,omitempty"`
+	// FCtxAware (MapStream): f gives up, returning its context's error, as soon as the context it was handed ends
+	// (that is MapStream's own context, which ends on a failure, on Close or with the constructor's context - not
+	// the context of whichever Next call happens to be waiting)
+	FCtxAware bool `json:"f_ctx_aware,omitempty"`
 }
 
 func genPlan(streamKind bool) func(t *rapid.T) Plan {
@@ -89,6 +93,7 @@ func genPlan(streamKind bool) func(t *rapid.T) Plan {
 			if rapid.IntRange(0, 2).Draw(t, "close") == 0 {
 				p.CloseAfter = rapid.IntRange(0, p.Len).Draw(t, "closeafter")
 			}
+			p.FCtxAware = rapid.IntRange(0, 2).Draw(t, "fctxaware") == 0
 			p.CtorCancelled = rapid.IntRange(0, 11).Draw(t, "ctorcancel") == 0
 			if !p.CtorCancelled && rapid.IntRange(0, 5).Draw(t, "ctorcancelat") == 0 {
 				p.CtorCancelAtMs = rapid.SampledFrom([]int{1, 3, 10, 40, 200}).Draw(t, "ctorcancelms")
@@ -282,7 +287,27 @@ func run(p Plan) (vk.Outcome, error) {
 				defer func() { close(quitC); cw.Wait() }() // (the fake clock stops when the bubble's root returns)
 			}
 			ms := parallel.MapStream[int, int](ctorCtx, src, p.Par, p.Buf, func(ctx context.Context, i int) (int, error) {
-				body(i)
+				if p.FCtxAware {
+					if i >= 0 && i < len(started) {
+						started[i].Add(1)
+					}
+					if d := p.latency(i); d > 0 {
+						tm := time.NewTimer(d)
+						select {
+						case <-tm.C:
+						case <-ctx.Done():
+							tm.Stop()
+							return fval(i), ctx.Err()
+						}
+					} else if ctx.Err() != nil {
+						return fval(i), ctx.Err()
+					}
+					orderMu <- struct{}{}
+					order = append(order, i)
+					<-orderMu
+				} else {
+					body(i)
+				}
 				if e := fErr[i]; e != nil {
 					return fval(i), e // (a value next to an error means nothing)
 				}
